@@ -60,6 +60,8 @@ type cval struct {
 	av     ArrV
 	pointee *cval
 	big     int64
+	str     string
+	strT    Term
 }
 
 func (c *concretizer) build(v Val, t types.Type, depth int) *cval {
@@ -80,6 +82,11 @@ func (c *concretizer) build(v Val, t types.Type, depth int) *cval {
 		return cv
 	case ArrV:
 		return &cval{kind: "array", typ: t, av: x}
+	case StrV:
+		if x.Const != nil {
+			return &cval{kind: "strconst", typ: t, str: *x.Const}
+		}
+		return &cval{kind: "string", typ: t, strT: x.T, ln: c.leafOf(app("slen", ISort(), x.T))}
 	case IfaceV:
 		if t.String() == "io.Writer" { // a recording stand-in: its Write calls land in verifspec.Trace
 			return &cval{kind: "recwriter", typ: t}
@@ -101,6 +108,19 @@ func (c *concretizer) build(v Val, t types.Type, depth int) *cval {
 // expand (phase B) follows pointers and slices once the header values are known.
 func (c *concretizer) expand(cv *cval, depth int) {
 	switch cv.kind {
+	case "string":
+		if cv.ln.val == nil || cv.elems != nil {
+			return
+		}
+		n := cv.ln.val.Int64()
+		if n > 4096 {
+			c.fail = fmt.Sprintf("model needs a string of %d bytes", n)
+			return
+		}
+		cv.elems = []*cval{}
+		for i := int64(0); i < n; i++ {
+			cv.elems = append(cv.elems, &cval{kind: "scalar", typ: types.Typ[types.Uint8], l: c.leafOf(app("sat", bvSort(8), cv.strT, intT(i)))})
+		}
 	case "struct":
 		for _, f := range cv.fields {
 			c.expand(f, depth+1)
@@ -345,6 +365,18 @@ func typeStr(t types.Type, pkg *types.Package) string {
 func (c *concretizer) goExpr(cv *cval, pkg *types.Package) string {
 	ts := typeStr(cv.typ, pkg)
 	switch cv.kind {
+	case "strconst":
+		return fmt.Sprintf("%s(%q)", ts, cv.str)
+	case "string":
+		b := make([]byte, 0, len(cv.elems))
+		for _, el := range cv.elems {
+			v := byte(0)
+			if el.l.val != nil {
+				v = byte(el.l.val.Int64())
+			}
+			b = append(b, v)
+		}
+		return fmt.Sprintf("%s(%q)", ts, string(b))
 	case "recwriter":
 		return "io.Writer(&vs.RecWriter{})"
 	case "scalar":
@@ -588,7 +620,7 @@ func (e *Engine) replayFromModel(dir string, w *Oblig, meta *replayMeta) string 
 		}
 		fmt.Fprintf(&src, "\tif !%s(%s) {\n\t\tfmt.Println(\"REPLAY-PRE-FALSE\")\n\t\treturn\n\t}\n", run.T.D.Pre, strings.Join(pa, ", "))
 	}
-	fmt.Fprintf(&src, "\tdefer func() {\n\t\tif r := recover(); r != nil {\n\t\t\tfmt.Println(\"REPLAY-PANIC:\", r)\n\t\t}\n\t}()\n")
+	fmt.Fprintf(&src, "\tdefer func() {\n\t\tif r := recover(); r != nil {\n\t\t\tif r == interface{}(vs.GhostOnly) {\n\t\t\t\tfmt.Println(\"REPLAY-NOT-EXECUTABLE: the clause uses a verifier-only helper\")\n\t\t\t\treturn\n\t\t\t}\n\t\t\tfmt.Println(\"REPLAY-PANIC:\", r)\n\t\t}\n\t}()\n")
 	// the call
 	var call string
 	if fn.Signature.Recv() != nil {
@@ -686,7 +718,7 @@ func execReplay(dir string, meta *replayMeta) (string, bool) {
 	txt := string(out)
 	os.WriteFile(filepath.Join(dir, "replay_output.txt"), out, 0644)
 	os.WriteFile(filepath.Join(dir, "replay.sh"), []byte("#!/bin/sh\ncd "+meta.Repo+" && GOFLAGS=-mod=mod GOPROXY=off go "+strings.Join(args, " ")+"\n"), 0755)
-	if strings.Contains(txt, "REPLAY-PRE-FALSE") {
+	if strings.Contains(txt, "REPLAY-PRE-FALSE") || strings.Contains(txt, "REPLAY-NOT-EXECUTABLE") {
 		return txt, false
 	}
 	switch meta.Kind {
